@@ -92,6 +92,35 @@ func c01Typed[T interface {
 		for i := range mid {
 			mid[i] = (cases[1].want[i] + cases[2].want[i]) / 2 // documented: (upper + lower) / 2 in the element type
 		}
+		// Wma in the element type: integer division truncates every term, so the
+		// result may differ from the real-valued formula by less than one per
+		// term (plus the final halving); float32 by its rounding.
+		wma := runT(trend.NewWmaWith[T](p).Compute)
+		if len(wma) != max(0, n-p+1) {
+			cc.Viol("", fmt.Sprintf("trend.Wma[%s] period %d over %d values emitted %d values", typ, p, n, len(wma)), nil)
+			return
+		}
+		for k, got := range wma {
+			real, mag := 0.0, 0.0
+			for i := 0; i < p; i++ {
+				term := float64(xs[k+i]) * float64(i+1) / float64(p)
+				real += term
+				if term < 0 {
+					term = -term
+				}
+				mag += term
+			}
+			real /= 2
+			tol := float64(p)/2 + 1
+			if !exact {
+				tol = 1e-5*mag + 1e-6
+			}
+			if d := float64(got) - real; d > tol || d < -tol {
+				cc.Viol("", fmt.Sprintf("trend.Wma[%s] period %d: window %v yields %v, the weighted average sum(x_i*(i+1)/P)/2 is %v (allowed rounding in the element type: %v)", typ, p, xs[k:k+p], got, real, tol), nil)
+				return
+			}
+		}
+		cc.Count("positions_compared", int64(len(wma)))
 		cases = append(cases, tc{"DonchianChannel.upper", outs[0], cases[1].want}, tc{"DonchianChannel.lower", outs[2], cases[2].want}, tc{"DonchianChannel.middle", outs[1], mid})
 		for _, c := range cases {
 			if !eqSlice(c.got, c.want) {
